@@ -6,19 +6,24 @@ LEVEL = 'model_checking'
 
 def run(ctx):
     T = ctx.thorough
-    tmo = 1200 if T else 90
+    tmo = 1200 if T else 100
     KMAX = 45 if T else 5
-    cells = [('pos%d_h%d_kind%d' % (p, h, kd), ['pos_i == %d' % p, 'handler_i == %d' % h, 'kind == %d' % kd]) for p in range(7) for h in range(5) for kd in range(6)]
-    cells = [(n, c + ['real_ei == False']) for n, c in cells] + [('pos%d_h%d_realEI' % (p, h), ['pos_i == %d' % p, 'handler_i == %d' % h, 'kind == 0', 'real_ei == True']) for p in range(7) for h in range(5) if (T or h != 1)]
+    NK = 46 if T else 14
+    NM = 4 if T else 3
+    ph = [('pos%d_h%d' % (p, h), [{'pos_i': p, 'handler_i': h}]) for p in range(7) for h in range(5)]
     obs = [
-        Ob('complete', 'ob_complete', 'pos_i: int, kind: int, k: int, msg_i: int, handler_i: int, real_ei: bool',
-           pre=['0 <= pos_i <= 6', '0 <= handler_i <= 4', '0 <= kind <= 5', '0 <= k <= %d' % KMAX, '0 <= msg_i <= 3',
-                '(kind == 0 and k == 0) or msg_i == 0', 'kind in (1, 2) or k <= 11', '(not real_ei) or (kind == 0 and k <= 1 and msg_i != 2)'],
-           cells=cells, timeout=tmo, per_path=45, twin_fn='tw_complete', twin_pre=['pos_i == 5', 'handler_i == 0', 'real_ei == False', 'kind == 3', 'k == 0'], confirm='confirm_complete',
-           desc='a real route with a 3-phase middleware + endpoint + render (and a render-less route); the function at the selected '
-                'position raises one of 12 built-in exceptions (4 messages incl. non-ASCII/NUL/3000 chars), raises or returns an exported '
-                'HTTPException class (symbolic index), returns a non-Response, raises a non-breaking error or returns an early Response; '
-                '5 error handlers; then a second, healthy request and a snapshot comparison of the application'),
+        Ob('builtin_exceptions', 'ob_k0', '', packed=[('pos_i', 7), ('handler_i', 5), ('acc', 3), ('msg_i', NM), ('k', 12 if T else 6)],
+           cells=ph, timeout=tmo, per_path=60, confirm='confirm_k0',
+           desc='one of %d built-in exception types (x %d messages incl. non-ASCII/NUL/3000 chars, x 3 Accept headers) raised at the selected position of a '
+                'real 3-phase middleware + endpoint + render chain, under 5 error handlers; real boltons ExceptionInfo; then a healthy request, a 404 probe, '
+                'a 405 probe and a snapshot comparison of the application' % (12 if T else 6, NM)),
+        Ob('http_errors', 'ob_k12', '', packed=[('pos_i', 7), ('handler_i', 5), ('kk', 2), ('acc', 3), ('k', NK)],
+           cells=ph, timeout=tmo, per_path=60, confirm='confirm_k12',
+           desc='an exported HTTPException class (%d codes incl. 4xx and 5xx) raised or returned at the selected position, 3 Accept headers: its own status, the very '
+                'object, rendered; broken render_error -> default rendering of the same error' % NK),
+        Ob('other_results', 'ob_k345', '', packed=[('pos_i', 7), ('handler_i', 5), ('kk', 3), ('acc', 3), ('k', 6)],
+           cells=ph, timeout=tmo, per_path=60, twin_fn='tw_k345', twin_pre=[{'pos_i': 5, 'handler_i': 0}], confirm='confirm_k345',
+           desc='non-Response values (str, None, int, dict, list, float), non-breaking errors and early Responses at the selected position'),
     ]
     res = run_obligations('C08', 'harness.c08', obs, ctx.tier)
     res.functions_encoded += ['Application.dispatch', 'ErrorHandler.uncaught_to_response/render_error', 'ContextualErrorHandler.uncaught_to_response',
